@@ -1,0 +1,52 @@
+//go:build verif
+
+package transport
+
+// Contracts for the govc verifier (/verif). This file contains comments only
+// and is compiled only with -tags verif; it adds no declarations.
+//
+// Interface contract of Conn, stated over ghost event counters that belong to
+// the calling invocation: nsent[t] packets of type code t (and nsentall in
+// total) were handed to the connection successfully, lastid[t] is the packet
+// id of the last one, connack_* the content of the last CONNACK, nnodup the
+// number of PUBLISH packets sent without the DUP flag, npubq the number of
+// PUBLISH packets with QoS > 0.
+//
+//@ ghost nsent map[int]int
+//@ ghost nsentall int
+//@ ghost lastid map[int]int
+//@ ghost connack_sp bool
+//@ ghost connack_code int
+//@ ghost nnodup int
+//@ ghost npubq int
+//@ ghost nclose int
+//
+//@ interface Conn.Send(pkt packet.Generic, async bool) (err error)
+//@   requires [pkt] pkt != nil && typecode(pkt) != 0
+//@   ensures [count]     err == nil ==> nsent[typecode(pkt)] == old(nsent[typecode(pkt)]) + 1 && nsentall == old(nsentall) + 1 && lastid[typecode(pkt)] == idOf(pkt)
+//@   ensures [others]    err == nil ==> forall t int {nsent[t]} :: t != typecode(pkt) ==> nsent[t] == old(nsent[t])
+//@   ensures [others-id] err == nil ==> forall t int {lastid[t]} :: t != typecode(pkt) ==> lastid[t] == old(lastid[t])
+//@   ensures [connack]   err == nil && istype(pkt, *packet.Connack) ==> (connack_sp <==> as(pkt, *packet.Connack).SessionPresent) && connack_code == as(pkt, *packet.Connack).ReturnCode
+//@   ensures [noconnack] !(err == nil && istype(pkt, *packet.Connack)) ==> (connack_sp <==> old(connack_sp)) && connack_code == old(connack_code)
+//@   ensures [dup]       nnodup == old(nnodup) + (err == nil && istype(pkt, *packet.Publish) && !as(pkt, *packet.Publish).Dup ? 1 : 0)
+//@   ensures [pubq]      npubq == old(npubq) + (err == nil && istype(pkt, *packet.Publish) && as(pkt, *packet.Publish).Message.QOS > 0 ? 1 : 0)
+//@   ensures [fail]      err != nil ==> nsent == old(nsent) && nsentall == old(nsentall) && lastid == old(lastid)
+//@   modifies nsent, nsentall, lastid, connack_sp, connack_code, nnodup, npubq
+//
+// A received packet is one of the 14 packet types and satisfies what the
+// decoders guarantee (C02): ids are non-zero where required, QoS <= 2.
+//@ interface Conn.Receive() (pkt packet.Generic, err error)
+//@   ensures [pkt] err == nil ==> pkt != nil && typecode(pkt) != 0 && as(pkt, *packet.Publish) != nil
+//@   ensures [publish] err == nil && istype(pkt, *packet.Publish) ==> as(pkt, *packet.Publish).Message.QOS <= 2 && (as(pkt, *packet.Publish).Message.QOS > 0 ==> as(pkt, *packet.Publish).ID != 0)
+//@   ensures [id] err == nil && hasID(pkt) && !istype(pkt, *packet.Publish) ==> idOf(pkt) != 0
+//@   ensures [fail] err != nil ==> pkt == nil
+//@   modifies nothing
+//@ interface Conn.Close() (err error)
+//@   ensures nclose == old(nclose) + 1
+//@   modifies nclose
+//@ interface Conn.SetReadLimit(limit int64)
+//@   modifies nothing
+//@ interface Conn.SetReadTimeout(timeout time.Duration)
+//@   modifies nothing
+//@ interface Conn.SetMaxWriteDelay(delay time.Duration)
+//@   modifies nothing
